@@ -358,3 +358,114 @@ Proof.
   intros Hfo Hg Hv. destruct (fields_flat _ Hfo) as (Hfl & El & _).
   apply (parse_iff_command_flat d argv Hfl (valid_fields_wf d _ Hfo Hv)); [rewrite El; exact Hg|exact Hv].
 Qed.
+
+(** * 6. [wf_nodes] of a struct with flattened structs follows from clap's assertions on the generated command
+    (argument ids distinct, group ids distinct, no argument id is a group id) *)
+From Coq Require Import Permutation.
+
+Lemma NoDup_app_r {A} (l l' : list A) : NoDup (l ++ l') -> NoDup l'.
+Proof. induction l as [|x l IH]; intros H; [exact H|]. cbn [app] in H. inversion H; subst. apply IH. assumption. Qed.
+Lemma NoDup_app_disj {A} (l l' : list A) : NoDup (l ++ l') -> forall x, In x l -> ~ In x l'.
+Proof.
+  induction l as [|y l IH]; intros H x Hx; [destruct Hx|]. cbn [app] in H. inversion H as [|? ? Hni Hnd]; subst.
+  destruct Hx as [<-|Hx]; [intros Hin; apply Hni; apply in_or_app; right; exact Hin|apply IH; assumption].
+Qed.
+Lemma NoDup_app_intro {A} (l l' : list A) : NoDup l -> NoDup l' -> (forall x, In x l -> ~ In x l') -> NoDup (l ++ l').
+Proof.
+  induction l as [|y l IH]; intros H1 H2 Hd; [exact H2|]. inversion H1 as [|? ? Hni Hnd]; subst. cbn [app]. constructor.
+  - intros Hin. apply in_app_or in Hin. destruct Hin as [Hin|Hin]; [apply Hni; exact Hin|apply (Hd y (or_introl eq_refl) Hin)].
+  - apply IH; [exact Hnd|exact H2|]. intros x Hx. apply Hd. right. exact Hx.
+Qed.
+
+Lemma flat_no_sub : (forall nd, flat_node nd = true -> has_sub_node nd = false)
+  /\ (forall ns, flat_nodes ns = true -> has_sub_nodes ns = false) /\ (forall vs : variants, True).
+Proof.
+  apply derive_mutind; try (intros; exact I).
+  - intros f _. reflexivity.
+  - intros opt gid body IH H. cbn [flat_node] in H. cbn [has_sub_node]. apply IH. exact H.
+  - intros opt vs _ H. discriminate H.
+  - intros _. reflexivity.
+  - intros nd IHn t IHt H. cbn [flat_nodes] in H. apply andb_prop in H. destruct H as [H1 H2].
+    cbn [has_sub_nodes]. rewrite (IHn H1), (IHt H2). reflexivity.
+Qed.
+
+Lemma nodup_wf : (forall nd, flat_node nd = true -> NoDup (level_ids_node nd) -> wf_node nd)
+  /\ (forall ns, flat_nodes ns = true -> NoDup (level_ids ns) -> wf_nodes ns) /\ (forall vs : variants, True).
+Proof.
+  apply derive_mutind; try (intros; exact I).
+  - intros opt gid body IH H Hnd. cbn [flat_node] in H. cbn [level_ids_node] in Hnd. inversion Hnd as [|? ? Hni Hnd']; subst.
+    cbn [wf_node]. split; [exact Hni|apply IH; assumption].
+  - intros opt vs _ H. discriminate H.
+  - intros nd IHn t IHt H Hnd. cbn [flat_nodes] in H. apply andb_prop in H. destruct H as [H1 H2].
+    cbn [level_ids] in Hnd. cbn [wf_nodes]. split; [apply IHn; [exact H1|apply (NoDup_app_l _ _ Hnd)]|].
+    split; [apply IHt; [exact H2|apply (NoDup_app_r _ _ Hnd)]|]. split; [exact (NoDup_app_disj _ _ Hnd)|].
+    intros Hs. rewrite (proj1 flat_no_sub nd H1) in Hs. discriminate Hs.
+Qed.
+
+Lemma struct_group_id gid ns : g_id (struct_group gid ns) = gid.
+Proof. unfold struct_group. destruct (has_flatten ns); reflexivity. Qed.
+
+Lemma level_ids_perm :
+  (forall nd, flat_node nd = true -> Permutation (level_ids_node nd) (map f_id (leaves_node nd) ++ map g_id (sgroups_node nd)))
+  /\ (forall ns, flat_nodes ns = true -> Permutation (level_ids ns) (map f_id (leaves ns) ++ map g_id (sgroups ns)))
+  /\ (forall vs : variants, True).
+Proof.
+  apply derive_mutind; try (intros; exact I).
+  - intros f _. cbn [level_ids_node leaves_node sgroups_node map app]. apply Permutation_refl.
+  - intros opt gid body IH H. cbn [flat_node] in H. cbn [level_ids_node leaves_node sgroups_node map].
+    rewrite struct_group_id. apply Permutation_cons_app. apply IH. exact H.
+  - intros opt vs _ H. discriminate H.
+  - intros _. apply Permutation_refl.
+  - intros nd IHn t IHt H. cbn [flat_nodes] in H. apply andb_prop in H. destruct H as [H1 H2].
+    cbn [level_ids leaves sgroups]. rewrite !map_app.
+    eapply Permutation_trans; [apply (Permutation_app (IHn H1) (IHt H2))|].
+    rewrite <- !app_assoc. apply Permutation_app_head. rewrite !app_assoc. apply Permutation_app_tail. apply Permutation_app_comm.
+Qed.
+
+Lemma count_nodup_gid : forall l : list group,
+  (forall g, In g l -> (count_if (fun x => beq (g_id x) (g_id g)) l < 2)%nat) -> NoDup (map g_id l).
+Proof.
+  induction l as [|g t IH]; intros H; [constructor|]. cbn [map]. constructor.
+  - intros Hin. apply in_map_iff in Hin. destruct Hin as [g' [E Hg']].
+    specialize (H g (or_introl eq_refl)). unfold count_if in H. cbn [filter] in H. rewrite beq_refl in H. cbn [length] in H.
+    assert (Hf : In g' (filter (fun x => beq (g_id x) (g_id g)) t)) by (apply filter_In; split; [exact Hg'|rewrite E; apply beq_refl]).
+    destruct (filter (fun x => beq (g_id x) (g_id g)) t); [destruct Hf|cbn [length] in H; lia].
+  - apply IH. intros g' Hg'. specialize (H g' (or_intror Hg')). unfold count_if in *. cbn [filter] in H.
+    destruct (beq (g_id g) (g_id g')); cbn [length] in H; lia.
+Qed.
+
+Lemma valid_flat_wf d bin : flat_nodes (d_nodes d) = true -> valid (with_bin (derive_cmd d) bin) = true -> wf_nodes (d_nodes d).
+Proof.
+  intros Hfl Hv. apply (proj1 (proj2 nodup_wf) _ Hfl).
+  apply (Permutation_NoDup (Permutation_sym (proj1 (proj2 level_ids_perm) _ Hfl))).
+  pose proof (builtg_app d bin Hv) as Happ.
+  destruct (assert_app_ids_distinct _ Happ) as [Hnd Hng].
+  apply NoDup_app_intro.
+  - rewrite (builtf_args d bin Hfl), bargs_ids, map_app, map_map in Hnd. apply NoDup_app_l in Hnd.
+    erewrite map_ext; [exact Hnd|]. intros f. cbv beta. rewrite field_arg_closed. reflexivity.
+  - pose proof (assert_app_rel_wf _ Happ) as Hrw. unfold rel_wf in Hrw. rewrite forallb_forall in Hrw.
+    assert (Hall : NoDup (map g_id (c_groups (built d bin)))).
+    { apply count_nodup_gid. intros g Hg. specialize (Hrw g Hg). apply andb_prop in Hrw. destruct Hrw as [Hc _].
+      apply Nat.ltb_lt in Hc. exact Hc. }
+    rewrite (builtf_groups d bin Hfl) in Hall. cbn [map] in Hall. inversion Hall; assumption.
+  - intros i Hi Hg. apply in_map_iff in Hi. destruct Hi as [f [<- Hf]].
+    destruct (builtg_of d bin Hfl f Hf) as [a' [Ha' Hof]]. destruct (of_field_facts f a' Hof) as (Fid & _).
+    specialize (Hng a' Ha'). rewrite Fid in Hng.
+    apply in_map_iff in Hg. destruct Hg as [g [Eg Hgin]].
+    unfold find_group in Hng. pose proof (find_none _ _ Hng g) as X. cbn beta in X.
+    rewrite Eg, beq_refl in X. discriminate X. rewrite (builtf_groups d bin Hfl). right. exact Hgin.
+Qed.
+
+(** the flat theorems with [wf_nodes] discharged *)
+Theorem extract_total_argv_flat_valid d argv m :
+  flat_nodes (d_nodes d) = true -> Forall guarded (leaves (d_nodes d)) ->
+  valid (with_bin (derive_cmd d) (hd [] argv)) = true ->
+  parse_top (derive_cmd d) argv = OOk m -> enum_ok_nodes (d_nodes d) m = true ->
+  exists vs, extract d m = XOk vs.
+Proof. intros Hfl Hg Hv. apply (extract_total_argv_flat d argv m Hfl (valid_flat_wf d _ Hfl Hv) Hg Hv). Qed.
+
+Theorem parse_iff_command_flat_valid d argv :
+  flat_nodes (d_nodes d) = true -> Forall guarded (leaves (d_nodes d)) ->
+  valid (with_bin (derive_cmd d) (hd [] argv)) = true ->
+  ((exists vs, derived_parse d argv = PValue vs) <-> (exists m, cmd_parse (derive_cmd d) (d_nodes d) argv = OOk m)).
+Proof. intros Hfl Hg Hv. apply (parse_iff_command_flat d argv Hfl (valid_flat_wf d _ Hfl Hv) Hg Hv). Qed.
